@@ -236,6 +236,11 @@ pub fn check_tight(tape: &[u16], rc: &mut RCase) -> Result<(), Failure> {
         }
     }
     let pay = 1_500_000 + t.pick(500_000) as i128;
+    // one time in four the target has no parameter at all (addresses written as literals, no tx parameter)
+    let parameterless = t.chance(1, 4);
+    if parameterless {
+        rc.label("tight:target_without_parameters");
+    }
     let mk = |funding: i128| {
         let mut outs = vec![];
         for k in 0..n_out {
@@ -245,7 +250,7 @@ pub fn check_tight(tape: &[u16], rc: &mut RCase) -> Result<(), Failure> {
         outs.push(rgen::ROut { name: None, party: 2, terms: vec![], change: true });
         Scenario {
             tx_name: "target".into(),
-            params: vec![("quantity".into(), 1)],
+            params: if parameterless { vec![] } else { vec![("quantity".into(), 1)] },
             ins: vec![rgen::RIn {
                 name: "source".into(),
                 party: 2,
@@ -257,7 +262,7 @@ pub fn check_tight(tape: &[u16], rc: &mut RCase) -> Result<(), Failure> {
             collateral: None,
             references: vec![],
             store: vec![rgen::SUtxo { id: 0, party: 2, lovelace: funding, token: 0 }],
-            n_parties: 3,
+            n_parties: if parameterless { 0 } else { 3 },
         }
     };
     let fresh_ok = |funding: i128| matches!(run_one(&mk(funding), &mut pipeline::compiler(&cfg), rounds), Outcome::Ok { .. });
